@@ -1031,6 +1031,28 @@ impl<'a> Gen<'a> {
         let fname = sig.ident.to_string();
         let ctx = format!("{} fn {}", self.ctx, fname);
         self.in_sub = sub.is_some();
+        // closures: a closure that did not exist when the anchors were recorded has no contract (Verus knows nothing about
+        // what an unannotated closure returns), so a refactoring such as `match` -> `.and_then(|v| ..)` makes the
+        // function's proof fail for no semantic reason; the driver downgrades failures of such a function to UNDECIDED
+        if let Some(bl) = block {
+            struct CC(usize);
+            impl<'ast> Visit<'ast> for CC {
+                fn visit_expr_closure(&mut self, c: &'ast syn::ExprClosure) {
+                    self.0 += 1;
+                    syn::visit::visit_expr_closure(self, c);
+                }
+            }
+            let mut cc = CC(0);
+            cc.visit_block(bl);
+            let ckey = format!("{}|{}|closures", self.key_prefix, fname);
+            if let Some((_, old_n, ..)) = self.recorded.get(&ckey).cloned() {
+                if cc.0 > old_n {
+                    let line = self.line_of(br(sig.span()).start);
+                    self.log.push(json!({"rule": "new-closure", "file": self.repo_file, "line": line, "old": fname.clone(), "note": format!("fn {fname}: {} closure(s) now, {} when the anchors were recorded; a new closure has no contract", cc.0, old_n)}));
+                }
+            }
+            self.observed.insert(ckey, (String::new(), cc.0, 0, 0, 0));
+        }
         let renamed_spec = spec.map(|s| self.rename_locals(sig, block, s, &fname));
         let spec = renamed_spec.as_ref();
         if sub.is_some() {
